@@ -68,6 +68,8 @@ func init() {
 	set("ptrBox", "getBox", "gb", "fieldB", "cbBox")
 	set("intv", "gi")
 	set("ctl", "setter", "bumper", "bump", "zero")
+	set("ctor", "ctor")
+	set("pcur", "pcur")
 }
 
 var typeName = map[string]string{
@@ -92,6 +94,12 @@ func writeStmt(wk, h string, v int) (string, error) {
 		"bV": "@H.V = @V", "bTags": "@H.Tags[0] = @S", "bKids": "@H.Kids[`z`] = @V", "bDel": "delete(@H.Kids, `k`)", "bWhole": "*@H = lib.Box{V: @V}", "bInc": "@H.V++",
 		"boxSet": "@H.Set(@V)", "boxTag": "@H.Tag(0, @S)", "boxPut": "@H.Put(`z`, @V)", "boxMV": "f := @H.Set\nf(@V)", "boxDeferSet": "defer @H.Set(@V)",
 		"iSet": "@H = @V", "iInc": "@H++", "iOp": "@H += @V",
+		// construction of victim-declared types in attacker code (must fail)
+		"cLit": "x := victim.T{N: @V}\n_ = x", "cPtr": "x := &victim.T{N: @V}\n_ = x", "cNew": "x := new(victim.T)\n_ = x",
+		"cInner": "x := victim.Inner{N: @V}\n_ = x", "cConv": "x := victim.Inner(struct {\n\tN    int\n\tTags []string\n}{N: @V})\n_ = x",
+		// persisting a realm value in the attacker realm's own state (must fail)
+		"rVar": "saved = cur", "rPrev": "saved = cur.Previous()", "rField": "sbox.r = cur", "rSlice": "slist = append(slist, cur)",
+		"rMap": "smap[`a`] = cur", "rClosure": "sfn = func() string { return cur.PkgPath() }", "rAny": "sany = cur",
 	}
 	s, ok := t[wk]
 	if !ok {
@@ -187,6 +195,8 @@ func gen(s shape, k int) (prog, error) {
 	switch {
 	case typ == "ctl":
 		w = ctlStmt(s.Path, v)
+	case typ == "ctor" || typ == "pcur":
+		// no handle: the statement itself is the forbidden operation
 	case cb:
 		h = "h"
 	case s.Path == "rangeT":
@@ -241,6 +251,9 @@ func gen(s shape, k int) (prog, error) {
 	case "a_cross":
 		usesA = true
 		a = fn("Attack(cur realm)", acq, w)
+		if typ == "pcur" {
+			a = "type rbox struct{ r realm }\n\nvar (\n\tsaved realm\n\tsbox  rbox\n\tslist []realm\n\tsmap  = map[string]realm{}\n\tsfn   func() string\n\tsany  any\n)\n\n" + a
+		}
 		script = fn("main(cur realm)", aName+".Attack(cross(cur))")
 	case "a_nc":
 		usesA = true
